@@ -136,13 +136,25 @@ def outcome_of(fn):
         return ["raise", n if n in H.EXN else "Other:" + n]
 
 
+def _scribble(r):
+    """the answer of neighbors() is the caller's own list: callers pop it as a work list, sort it, extend it"""
+    if isinstance(r, list):
+        r.clear()
+        r.append(None)
+
+
 def run_query(w, q):
     """q = ["NB", v, d, u, f] | ["FL", a, b, ds, u, f] | traversal / search queries (see travh)"""
     t = q[0]
     if t == "NB":
         v = w.get(q[1], H.VERTEX_KINDS)
-        return outcome_of(lambda: ["list", [w.id_of(x) for x in helpers.neighbors(
-            v, direction_sensitive=DIRC[q[2]], unknown_handling=UNKC[q[3]], filterfunc=std_filt(w, q[4]))]])
+
+        def nb():
+            r = helpers.neighbors(v, direction_sensitive=DIRC[q[2]], unknown_handling=UNKC[q[3]], filterfunc=std_filt(w, q[4]))
+            ids = [w.id_of(x) for x in r]
+            _scribble(r)
+            return ["list", ids]
+        return outcome_of(nb)
     if t == "FL":
         a, b = w.get(q[1], H.VERTEX_KINDS), w.get(q[2], H.VERTEX_KINDS)
         return outcome_of(lambda: ["set", sorted(w.id_of(x) for x in helpers.find_links(
@@ -175,7 +187,7 @@ def warm_memo(w):
             for d in ("Fwd", "AnyDir", "Bwd"):
                 for u in ("UNb", "UNon"):
                     try:
-                        helpers.neighbors(o, direction_sensitive=DIRC[d], unknown_handling=UNKC[u])
+                        _scribble(helpers.neighbors(o, direction_sensitive=DIRC[d], unknown_handling=UNKC[u]))
                     except Exception:  # noqa: BLE001
                         pass
 
@@ -235,7 +247,7 @@ QTYPE = "state * list (qry * qres)"
 
 
 # ---- random multigraph builders -------------------------------------------------------------
-def gen_graph_ops(rng, nv=None, nl=None, odd=0.25, universes=True, shared=0.3):
+def gen_graph_ops(rng, nv=None, nl=None, odd=0.25, universes=True, shared=0.3, classes=None):
     """ops building a small mixed multigraph: self-loops, parallel and mixed-class edges, some None ends /
     third members (probability `odd`), optionally a universe holding a subset of the vertices."""
     nv = nv if nv is not None else rng.randint(1, 5)
@@ -247,7 +259,7 @@ def gen_graph_ops(rng, nv=None, nl=None, odd=0.25, universes=True, shared=0.3):
     nid = len(ops)
     shared_uid = rng.random() < shared      # several vertices carry the same caller-supplied uid (never checked by the library)
     for _ in range(nv):
-        op = ["NV", rng.choice(H.NV_CLASSES), [], []]
+        op = ["NV", rng.choice(classes or H.NV_CLASSES), [], []]
         if shared_uid and rng.random() < 0.6:
             op.append(7000 + rng.randrange(2))      # two or more vertices end up with the same caller-supplied uid
         ops.append(op)
